@@ -42,11 +42,12 @@ def draw_config(rng: random.Random, prop: str) -> dict:
     cfg['gc_p'] = rng.choice([0.0, float(gp)]) if gp else rng.choice([0.0, 0.0, 0.3])
     cfg['new_species_p'] = rng.choice([0.0, 0.0, 0.15]) if prop in ('C03', 'C10') else 0.0
     cfg['file_species_p'] = rng.choice([0.0, 0.5]) if prop in ('C09', 'C03') else 0.0
+    cfg['empty_species'] = prop in ('C03', 'C09') and rng.random() < 0.4
     w = {
         'create': 2, 'add': 10, 'get': 8, 'iter': 1.5, 'len': 1, 'lookup': 2, 'sync': 1.5,
         'close': 2, 'open_r': 2, 'open_a': 2, 'fsck': 0.5, 'add_invalid': 0, 'merge': 0,
         'open_merged': 0, 'create_assoc': 0, 'save': 1, 'get_oob': 1.5, 'append_merged': 0,
-        'iter_live': 1.0,
+        'iter_live': 1.0, 'save_invalid': 0.5, 'dup_create': 0,
         'merge_refused': 0, 'merge_faulted': 0,
     }
     if prop == 'C03':
@@ -54,11 +55,12 @@ def draw_config(rng: random.Random, prop: str) -> dict:
         w.update(create_assoc=2, open_r=3, open_a=1, lookup=0.5)
         cfg['layout'] = rng.choices(['single', 'assoc', 'mem'], [0.4, 0.4, 0.2])[0]
     elif prop == 'C07':
-        cfg['fs_pool'] = rng.choice([[], [], ['vx_wide'], ['vx_p']])
+        cfg['fs_pool'] = rng.choice([[], [], ['vx_wide'], ['vx_p'], ['vx_o'], ['vx_p', 'vx_o']])
         cfg['species_mode'] = 'first_k'
+        cfg['layout'] = rng.choices(['single', 'assoc', 'mem'], [0.5, 0.3, 0.2])[0]
         w.update(get=10, open_a=3)
     elif prop == 'C08':
-        cfg['fs_pool'] = rng.choice([[], [], ['vx_t']])
+        cfg['fs_pool'] = rng.choice([[], [], ['vx_t'], ['vx_o']])
         cfg['species_mode'] = 'first_k'
         cfg['ids'] = rng.choices(['all', 'per_group'], [0.8, 0.2])[0]
         w.update(lookup=8, add_invalid=1, merge=1.5, open_merged=3, open_a=3)
@@ -73,13 +75,13 @@ def draw_config(rng: random.Random, prop: str) -> dict:
                  open_r=0.5, sync=0.3, append_merged=0.7, merge_refused=1, save=0)
         cfg['steps'] = rng.randint(15, 60)
     elif prop == 'C10':
-        cfg['fs_pool'] = rng.choice([[], ['vx_t'], ['vx_p'], ['vx_s', 'vx_t']])
+        cfg['fs_pool'] = rng.choice([[], ['vx_t'], ['vx_p'], ['vx_s', 'vx_t'], ['vx_o']])
         cfg['species_mode'] = 'first_k'
         cfg['max_files'] = rng.randint(1, 4)
         cfg['max_rows'] = rng.randint(2, 6)
-        cfg['layout'] = rng.choices(['single', 'assoc'], [0.65, 0.35])[0]
+        cfg['layout'] = rng.choices(['single', 'assoc', 'mem'], [0.55, 0.33, 0.12])[0]
         w.update(add_invalid=6, merge_refused=2, merge=1, close=3, open_a=3, fsck=1.5,
-                 merge_faulted=1.5, save=0)
+                 merge_faulted=1.5, save=1, save_invalid=1, dup_create=1.5)
         if rng.random() < 0.85:
             cfg['regime'] = 'tiny'
         cfg['ids'] = rng.choices(['all', 'none', 'per_group'], [0.25, 0.15, 0.6])[0]
@@ -304,6 +306,10 @@ class Gen:
             if self.cfg['regime'] == 'pressure':
                 wide = 'vx_wide' in fs
                 n = rng.randint(300, 800) if wide else rng.randint(1500, 3000)
+                if rng.random() < 0.3:
+                    # up to ~90 % of a 1 MiB cache: two such neighbours do not fit together
+                    per_point = max(1, G.est_nbytes(fs, 1000) // 1000)
+                    n = rng.randint(int(0.45 * 1048576 / per_point), int(0.9 * 1048576 / per_point))
             else:
                 n = rng.choice([1, 1, 2, 3, rng.randint(1, 8), rng.randint(1, 60)])
         self.cs += 1
@@ -315,8 +321,10 @@ class Gen:
         sf = G.species_fields(fs)
         if sf:
             uni = g['species']
-            if file is not None and file.species:
-                uni = list(file.species)          # the file's species dimension is fixed
+            if file is not None and file.exists and file.species is not None:
+                uni = list(file.species)          # the file's species dimension is fixed (may be empty)
+            elif first_of_file and self.cfg.get('empty_species') and rng.random() < 0.15:
+                uni = []                          # a file whose trajectories carry no species at all
             elif first_of_file and rng.random() < self.cfg.get('file_species_p', 0.0):
                 uni = self._species_universe()    # parts of one group with differing species
             mode = self.cfg['species_mode']
@@ -325,11 +333,13 @@ class Gen:
                 if first_of_file or mode not in ('per_field', 'per_traj'):
                     sp[f] = list(uni)
                 else:
-                    sp[f] = sorted(rng.sample(uni, rng.randint(1, len(uni))), key=G.SPECIES_NAMES.index)
+                    lo = 0 if self.cfg.get('empty_species') else 1
+                    sp[f] = sorted(rng.sample(uni, rng.randint(min(lo, len(uni)), len(uni))), key=G.SPECIES_NAMES.index)
             if mode == 'per_field' and first_of_file and len(uni) > 1:
-                # different subsets per field, union still the universe
+                # different subsets per field (possibly empty), union still the universe
+                lo = 0 if self.cfg.get('empty_species') else 1
                 for f in sf[1:]:
-                    sp[f] = sorted(rng.sample(uni, rng.randint(1, len(uni))), key=G.SPECIES_NAMES.index)
+                    sp[f] = sorted(rng.sample(uni, rng.randint(lo, len(uni))), key=G.SPECIES_NAMES.index)
             outside = [x for x in G.SPECIES_NAMES if x not in uni]
             if not first_of_file and outside and rng.random() < self.cfg.get('new_species_p', 0):
                 f = rng.choice(sf)
@@ -337,7 +347,8 @@ class Gen:
             spec['species'] = sp
         if self.cfg['unset_p'] and rng.random() < self.cfg['unset_p']:
             opt = [f for f in G.optional_fields(fs) if f != 'flight_id']
-            spec['unset'] = [f for f in opt if rng.random() < 0.5]
+            p_un = rng.choice([0.5, 0.5, 1.0])      # sometimes nothing optional is set at all
+            spec['unset'] = [f for f in opt if rng.random() < p_un]
         return spec
 
     # ---- op generation
@@ -369,10 +380,13 @@ class Gen:
                 cands.append(('sync', w['sync']))
             if any(s.kind == 'mem' and s.mem_rows for s in open_sessions):
                 cands.append(('save', w['save']))
+                cands.append(('save_invalid', w.get('save_invalid', 0) if w['save'] else 0))
             if any(s.kind == 'read' for s in open_sessions) and w['create_assoc']:
                 cands.append(('create_assoc', w['create_assoc']))
         if closed_files and len(open_sessions) < 3:
             cands += [('open_r', w['open_r']), ('open_a', w['open_a']), ('fsck', w['fsck'])]
+        if w.get('dup_create') and not open_sessions and len(sim.files) < self.cfg['max_files']:
+            cands.append(('dup_create', w['dup_create']))
         if w['merge'] and closed_files:
             cands.append(('merge', w['merge']))
         if w['merge_refused'] and closed_files:
@@ -506,7 +520,13 @@ class Gen:
         if sess.kind == 'mem':
             if self.rng.random() < 0.7:
                 return None
-        return {'op': 'close', 'sess': sess.sid}
+        op = {'op': 'close', 'sess': sess.sid}
+        r = self.rng.random()
+        if r < 0.15:
+            op['how'] = 'exit'
+        elif r < 0.35:
+            op['how'] = 'exit_exc'
+        return op
 
     def g_close_all_one(self):
         ss = list(self.sim.sessions.values())
@@ -554,6 +574,29 @@ class Gen:
             assoc.append([f'g{gid}_{i}.a0.nc', [fs[-1]]])
         return {'op': 'save', 'sess': sess.sid, 'file': name, 'group': gid, 'assoc': assoc}
 
+    def g_save_invalid(self):
+        rng = self.rng
+        ss = [s for s in self.sim.sessions.values() if s.kind == 'mem' and s.mem_rows]
+        sess = rng.choice(ss)
+        fs = list(sess.visible_fs)
+        assoc = [[f'refused_{self.nsess}.a0.nc', [fs[-1]]]] if fs and rng.random() < 0.8 else []
+        return {'op': 'save_invalid', 'sess': sess.sid, 'assoc': assoc}
+
+    def g_dup_create(self):
+        rng = self.rng
+        gid = rng.choice(list(self.groups)) if self.groups and rng.random() < 0.6 else self.new_group()
+        g = self.groups[gid]
+        if g['n_assoc']:
+            return None
+        i = g.get('base_index', 0) + len(g['files'])
+        name = f'g{gid}_{i}.nc'
+        g['files'].append(name)
+        fs = list(g['fs'])
+        a = [self.traj_spec(gid, first_of_file=(k == 0), fs=fs) for k in range(rng.randint(1, 3))]
+        b = self.traj_spec(gid, first_of_file=True, fs=fs)
+        return {'op': 'dup_create', 'file': name, 'group': gid, 'base_fs': fs, 'a_trajs': a, 'b_traj': b,
+                'cache': self.pick_cache()}
+
     def g_create_assoc(self):
         rng = self.rng
         ss = [s for s in self.sim.sessions.values() if s.kind == 'read' and s.file is not None]
@@ -587,9 +630,16 @@ class Gen:
             kinds += ['required_none', 'extra_fieldset', 'id_mismatch']
             if f.all_fs:
                 kinds.append('missing_fieldset')
+        if f.exists and sess.cache_mb <= 2:
+            kinds.append('oversize')
         kind = rng.choice(kinds)
         fs = list(f.all_fs)
         first = not f.exists
+        if kind == 'oversize':
+            spec = self.traj_spec(gid, first_of_file=False, fs=fs, ident=f.ident, file=f)
+            per_point = max(1, G.est_nbytes(fs, 1000) // 1000)
+            spec['n'] = int(sess.cache_mb * 1048576 / per_point) + rng.randint(50, 500)
+            return {'op': 'add_invalid', 'sess': sess.sid, 'kind': kind, 'traj': spec}
         if kind == 'required_none':
             # before the first successful addition the rejected trajectory may use identifiers
             # differently from the ones that follow: it must not decide anything
